@@ -160,7 +160,45 @@ def main():
     for s_, d_ in pairs:
         if has(s_, d_):
             transplant(s_, d_, "%s block vs %s block" % (s_, d_))
-    em.samples = [{"checks": "decodability + pinned length of every identity; bit transplants between combined/orbit/clock and parallel families"}]
+    # the same decodes while other threads decode other message types (the layouts are shared tables; a decode must not depend on
+    # what is being decoded next to it)
+    import sys as _sys
+    import threading as _th
+    conc = []
+    for ident in [i for t in triples for i in t if has(*t)][:9] + [i for i in ("1059", "1065", "4076_025", "1077", "1230", "1029") if has(i)]:
+        b = gen.build(tabs, ident, rng, maxcount=3)
+        if b is not None and len(b.payload) <= 1023:
+            try:
+                conc.append((ident, b.payload, gen.public_attrs(p.RTCMMessage(payload=b.payload))))
+            except Exception:  # noqa
+                pass
+    errs = []
+
+    def worker(seed):
+        r = random.Random(seed)
+        mine = conc * 60
+        r.shuffle(mine)
+        for ident, pay, want in mine:
+            try:
+                if gen.public_attrs(p.RTCMMessage(payload=pay)) != want:
+                    errs.append((ident, pay))
+            except Exception:  # noqa
+                errs.append((ident, pay))
+    oldsw = _sys.getswitchinterval()
+    _sys.setswitchinterval(1e-6)
+    try:
+        ths = [_th.Thread(target=worker, args=(i,)) for i in range(6)]
+        for t in ths:
+            t.start()
+        for t in ths:
+            t.join()
+    finally:
+        _sys.setswitchinterval(oldsw)
+    em.direct_evaluations += 360 * len(conc)
+    for ident, pay in errs[:2]:
+        em.violation("C10: %s decodes differently (or not at all) while other threads decode other message types" % ident,
+                     {"identity": ident, "payload": pay.hex(), "note": "6 threads, switch interval 1e-6"}, {})
+    em.samples = [{"checks": "decodability + pinned length of every identity; bit transplants between combined/orbit/clock and parallel families; decodes under concurrency"}]
     em.finish()
 
 
